@@ -157,18 +157,8 @@ theorem C05_fixed_point_classified (w : World) (hv : HostView) (hwf : w.WellForm
 theorem C05_shadowed_not_examined (w : World) (hv : HostView) (r q : WReq)
     (hq : WOp.decide q true ∈ iterateOps w hv) (hr : WOp.decide r true ∈ iterateOps w hv)
     (hk : (q.file, q.groupTo) = (r.file, r.groupTo)) : q = r := by
-  have key : ∀ x, WOp.decide x true ∈ iterateOps w hv → x ∈ firstPerFile [] (w.pendingInto hv) := by
-    intro x hx
-    unfold iterateOps at hx
-    simp only [List.mem_append] at hx
-    rcases hx with (hx | hx) | hx
-    · obtain ⟨c, _, hc⟩ := List.mem_map.mp hx; cases hc
-    · obtain ⟨m, _, hx⟩ := List.mem_flatMap.mp hx
-      obtain ⟨id, _, hopt⟩ := List.mem_filterMap.mp hx
-      cases hf : w.copies.find? (·.id == id) <;> simp [hf] at hopt
-    · obtain ⟨y, hy, hyx⟩ := List.mem_map.mp hx
-      injection hyx with h1 _
-      exact h1 ▸ hy
+  have key : ∀ x, WOp.decide x true ∈ iterateOps w hv → x ∈ firstPerFile [] (w.pendingInto hv) :=
+    fun x hx => (decide_of_mem_iterateOps w hv x true hx).1
   have hpw := firstPerFile_pairwise [] (w.pendingInto hv)
   have hq' := key q hq
   have hr' := key r hr
